@@ -41,10 +41,13 @@ Inductive origin_tag := OEdge | ONode | OOther.
 Inductive item_kind := IStr | IPair | ITriple | IInt. (* str / 2-tuple / 3-tuple / non-iterable *)
 Record item := { it_kind : item_kind; it_in_graph : bool }.
 Record constr := { c_is_list : bool; c_items : list item }.
+Inductive pct := PNone | PInRange | POutOfRange.      (* not passed / in [0,100] / outside *)
 Record input := {
   nodes_str : list bool;          (* per node: isinstance(node, str) *)
   n_edges : nat;
-  acyclic : bool;
+  acyclic : bool;                  (* no cycle through two or more nodes *)
+  has_selfloop : bool;             (* some edge (v, v) *)
+  ign_pct : pct; trust_pct : pct;  (* elements_to_ignore_percentile (kMinPathErrorCycles) / trusted_edges_for_safety_percentile (both cyclic error models) *)
   has_source : bool; has_sink : bool;          (* base graph has a node of in-degree / out-degree 0 *)
   origin : origin_tag; wtype : wtype_tag;
   elems : list elem;
@@ -60,6 +63,10 @@ Record input := {
 }.
 
 (* ------------------------------------------------------------------ atoms *)
+(* what networkx.is_directed_acyclic_graph decides: a self-loop is a cycle *)
+Definition dag (i : input) := acyclic i && negb (has_selfloop i).
+Definition pct_bad (p : pct) := match p with POutOfRange => true | _ => false end.
+Definition pct_set (p : pct) := match p with PNone => false | _ => true end.
 Definition all_str (i : input) := forallb (fun b => b) (nodes_str i).
 Definition n_nodes (i : input) := length (nodes_str i).
 Definition all_in (l : list bool) := forallb (fun b => b) l.
@@ -166,7 +173,7 @@ Definition v_ssg_common (i : input) (sts ens : list bool) : step :=
   guard (negb (all_in ens)) VE ;> None.
 (* stDAG._pre_build_validate *)
 Definition v_stdag (i : input) (sts ens : list bool) : step :=
-  v_ssg_common i sts ens ;> guard (negb (acyclic i)) VE.
+  v_ssg_common i sts ens ;> guard (negb (dag i)) VE.
 (* stDiGraph._post_build (stdigraph.py:54-59) *)
 Definition no_src (i : input) (sts : list bool) := negb (has_source i) && is_nil sts.
 Definition no_snk (i : input) (ens : list bool) := negb (has_sink i) && is_nil ens.
@@ -335,7 +342,7 @@ Definition validate_MinErrorFlow (i : input) : outcome :=
   | OEdge => front_edge i
   | OOther => Some VE
   end ;;
-  (if acyclic i
+  (if dag i
    then v_stdag i (st_of i) (en_of i)
    else guard (negb (all_str i)) VE) ;;                        (* 10a634a: the cyclic branch tests the node names itself *)
   guard (negb (wtype_ok i)) VE ;;
@@ -354,16 +361,30 @@ Definition kfdc_core (i : input) (sts ens : list bool) (ign_empty : bool) (kb : 
 Definition validate_kFlowDecompCycles (i : input) : outcome :=
   front i true ;; kfdc_core i (st_of i) (en_of i) (ign_internal_empty i) (k_bad i).
 
-(* kLeastAbsErrorsCycles / kMinPathErrorCycles (kleastabserrorscycles.py:127-250, kminpatherrorcycles.py:131-277) *)
-Definition validate_kErrCycles (i : input) : outcome :=
+(* kLeastAbsErrorsCycles (kleastabserrorscycles.py:127-250).  trusted_edges_for_safety_percentile is handed to numpy.percentile
+   (ValueError outside [0,100]) when at least one edge carries the attribute.  The elements a percentile ignores / trusts are
+   decided by the abstraction: [e_ign] already contains the percentile-ignored edges. *)
+Definition some_weight (i : input) := existsb (fun e => negb (missing_w (e_w e))) (elems i).
+Definition validate_kLeastAbsErrorsCycles (i : input) : outcome :=
   front i true ;;
   v_stdigraph i (st_of i) (en_of i) ;;
+  guard (pct_bad (trust_pct i) && some_weight i) VE ;;
   guard (negb (wtype_ok i)) VE ;;
   v_maxflow i ;;
   v_walkmodel i ;;
   Accept.
-Definition validate_kLeastAbsErrorsCycles := validate_kErrCycles.
-Definition validate_kMinPathErrorCycles := validate_kErrCycles.
+(* kMinPathErrorCycles (kminpatherrorcycles.py:131-277): elements_to_ignore_percentile is range-checked and excludes
+   elements_to_ignore; trusted_edges_for_safety_percentile is range-checked after the weights *)
+Definition validate_kMinPathErrorCycles (i : input) : outcome :=
+  front i true ;;
+  v_stdigraph i (st_of i) (en_of i) ;;
+  guard (pct_bad (ign_pct i)) VE ;;
+  guard (pct_set (ign_pct i) && negb (is_nil (ign i))) VE ;;
+  guard (negb (wtype_ok i)) VE ;;
+  v_maxflow i ;;
+  guard (pct_bad (trust_pct i)) VE ;;
+  v_walkmodel i ;;
+  Accept.
 
 (* kPathCoverCycles (kpathcovercycles.py:83-155) *)
 Definition validate_kPathCoverCycles (i : input) : outcome :=
@@ -406,7 +427,7 @@ Definition validate_MinFlowDecompCycles (i : input) : outcome :=
   Accept.
 
 (* ------------------------------------------------------------------ documented domains *)
-Definition dom_graph_dag (i : input) := all_str i && acyclic i.
+Definition dom_graph_dag (i : input) := all_str i && dag i.
 Definition dom_graph_cyc (i : input) (sts ens : list bool) :=
   all_str i && (has_source i || negb (is_nil sts)) && (has_sink i || negb (is_nil ens)).
 Definition dom_size (i : input) :=
@@ -443,7 +464,7 @@ Definition in_domain_MinPathCover (i : input) :=
 (* MinErrorFlow: arbitrary (also negative) weights are corrected; additional starts/ends "apply only to acyclic graphs" *)
 Definition in_domain_MinErrorFlow (i : input) :=
   origin_ok i && dom_size i && all_str i && dom_ign i && wtype_ok i && negb (missing_live i) &&
-  (negb (acyclic i) || dom_starts i) && match origin i with ONode => dom_starts i | _ => true end.
+  (negb (dag i) || dom_starts i) && match origin i with ONode => dom_starts i | _ => true end.
 
 Definition in_domain_kFlowDecompCycles (i : input) :=
   origin_ok i && dom_size i && dom_graph_cyc i (starts i) (ends i) && dom_ign i && dom_weights i && dom_flow i &&
@@ -455,8 +476,10 @@ Definition in_domain_MinFlowDecompCycles (i : input) :=
 Definition in_domain_kErrCycles (i : input) :=
   origin_ok i && dom_size i && dom_graph_cyc i (starts i) (ends i) && dom_ign i && dom_weights i &&
   k_pos_int i && dom_cons i && dom_starts i.
-Definition in_domain_kLeastAbsErrorsCycles := in_domain_kErrCycles.
-Definition in_domain_kMinPathErrorCycles := in_domain_kErrCycles.
+Definition in_domain_kLeastAbsErrorsCycles (i : input) := in_domain_kErrCycles i && negb (pct_bad (trust_pct i)).
+Definition in_domain_kMinPathErrorCycles (i : input) :=
+  in_domain_kErrCycles i && negb (pct_bad (trust_pct i)) && negb (pct_bad (ign_pct i)) &&
+  (negb (pct_set (ign_pct i)) || is_nil (ign i)).
 Definition in_domain_kPathCoverCycles (i : input) :=
   origin_ok i && dom_size i && dom_graph_cyc i (starts i) (ends i) && dom_ign i && k_pos_int i && dom_cons i && dom_starts i.
 Definition in_domain_MinPathCoverCycles (i : input) :=
